@@ -175,13 +175,14 @@ def Store.addLabel (s : Store) (id l : Nat) : Store × Bool :=
     else ({ s with nodeLabels := aset s.nodeLabels id (s.nodeLabelsOf id ++ [l]),
                    labelIdx := aset s.labelIdx l (sinsert ((aget s.labelIdx l).getD []) id) }, true)
 
-/-- `remove_label` (store epoch); `known` = the label string has an id already. -/
-def Store.removeLabel (s : Store) (id l : Nat) (known : Bool) : Store × Bool :=
+/-- `remove_label` (store epoch). The source first looks the label string up in `label_to_id`
+and answers `false` when it has no id; a label without an id is carried by no node, so that
+early exit is subsumed by the membership test below and `label_to_id` is not modelled. -/
+def Store.removeLabel (s : Store) (id l : Nat) : Store × Bool :=
   match aget s.nodes id with
   | none => (s, false)
   | some c =>
     if !chainVisibleAt c s.epoch then (s, false)
-    else if !known then (s, false)
     else match aget s.nodeLabels id with
       | none => (s, false)
       | some ls =>
